@@ -88,6 +88,13 @@ def permute_comps(p, perm):
     return q
 
 
+def permute_model_comps_only(p, perm):
+    """the model's compartments declared in another order, every stratification listing its compartments as before"""
+    q = copy.deepcopy(p)
+    q["comps"] = [p["comps"][i] for i in perm]
+    return q
+
+
 def permute_flows(p, rng):
     q = copy.deepcopy(p)
     first_strat = min([i for i, o in enumerate(q["ops"]) if o["op"] in ("strat",)] + [len(q["ops"])])
